@@ -78,11 +78,16 @@ class StateHooks(Hooks):
             st.emit("failed_wait", exc=exc)
             return [("raise", exc, st)]
         if n == "CompletionEventObj.wait":
-            st.emit("wait", ev=fn.info)
+            # contract of CompletionEvent.wait(timeout) (C03.event.contract.wait): without a timeout it returns only once the event is set;
+            # with one it may also return False with the event still unset
+            timeout = args[0] if args else kwargs.get("timeout")
+            was_set = T if timeout is None else fresh("bool", "event_was_set").t
+            st.emit("wait", ev=fn.info, was_set=was_set)
             s2 = st.fork()
             exc = s2.alloc(eng.program.cls("exceptions.BackgroundThreadError"), {"args": ("bg",), "source_exception": eng.new_symexc(s2, "src")})
             s2.emit("wait_raised", exc=exc)
-            return [("val", True, st), ("raise", exc, s2)]
+            s2.assume(was_set)
+            return [("val", True if timeout is None else Sym("bool", was_set), st), ("raise", exc, s2)]
         return Hooks.opaque_call(self, eng, st, fn, args, kwargs)
 
 
@@ -112,7 +117,13 @@ def merge_all_pages(chk, prefix="C01"):
         scratch copy of the map; its effect must be exactly `register (op.parent_id, op.operation_id) when the parent id is truthy`; the
         quantified effect over the whole list is then applied"""
         def f(it, s0):
-            seq = s0.get(it)["seq"]
+            stor_it = s0.get(it) if isinstance(it, Ref) else {}
+            if stor_it.get("__kind__") == "zseq":
+                seq = stor_it["seq"]
+            elif stor_it.get("__kind__") == "list" and not stor_it.get("items"):
+                seq = z3.Empty(SEQ)
+            else:
+                raise Unsupported(f"registration loop over {it!r}")
             j = z3.Int(fresh_name("j"))
             sb = s0.fork()
             elem = sb.alloc("opaque:OpElem", {"idx": Sym("int", j)})
@@ -135,8 +146,12 @@ def merge_all_pages(chk, prefix="C01"):
             p_, c_, i_ = z3.String(fresh_name("p")), z3.String(fresh_name("c")), z3.Int(fresh_name("i"))
             r0 = z3.And(z3.Select(m0["has"], p_), z3.Select(z3.Select(m0["sets"], p_), c_))
             r2 = z3.And(z3.Select(has2, p_), z3.Select(z3.Select(sets2, p_), c_))
-            added = z3.Exists([i_], z3.And(i_ >= 0, i_ < z3.Length(seq), z3.Not(op_par_none(seq[i_])), z3.Length(op_par(seq[i_])) > 0, p_ == op_par(seq[i_]), c_ == op_id(seq[i_])))
-            s0.assume(z3.ForAll([p_, c_], r2 == z3.Or(r0, added)))
+            # post-state of the loop, over-approximated to what follows from the per-iteration effect by induction: nothing is removed,
+            # and the link of every element with a parent is present (whether anything ELSE was added is left open)
+            s0.assume(z3.ForAll([p_, c_], z3.Implies(r0, r2)))
+            e_par, e_id = op_par(seq[i_]), op_id(seq[i_])
+            s0.assume(z3.ForAll([i_], z3.Implies(z3.And(i_ >= 0, i_ < z3.Length(seq), z3.Not(op_par_none(seq[i_])), z3.Length(e_par) > 0),
+                                                 z3.And(z3.Select(has2, e_par), z3.Select(z3.Select(sets2, e_par), e_id)))))
             s0.put(ptc, dict(m0, has=has2, sets=sets2))
             s0.emit("links_registered", seq=seq)
             return [("fall", None, s0)]
@@ -422,9 +437,11 @@ def create_checkpoint(chk, prefix, want):
                     sync_case = z3.BoolVal(len(waits) == 1 and len(news) == 1 and ev is not None and waits[0].ev == ev and news[0].ev == ev and s.trace.index(puts[0]) < s.trace.index(waits[0]))
                     sync_case = z3.And(sync_case, z3.Not(is_none(q["completion_event"])) if q_ok else F)
                     async_case = z3.And(z3.BoolVal(len(waits) == 0), is_none(q["completion_event"]) if q_ok else F)
+                    if waits:
+                        sync_case = z3.And(sync_case, waits[0].was_set)  # returned because the event was SET, not because a timeout expired
                     goal = z3.And(same_upd, z3.If(is_sync.t, sync_case, async_case))
                 chk.prove(f"{prefix}.state.sync_blocks", s.pc, goal,
-                          desc="normal return: exactly one QueuedOperation(update, event) was put; synchronous => a fresh completion event, and the call returned through its wait(); asynchronous => no event, no wait",
+                          desc="normal return: exactly one QueuedOperation(update, event) was put; synchronous => a fresh completion event, and the call returned through its wait() with the event SET (an unbounded wait, or a timed wait whose result was checked); asynchronous => no event, no wait",
                           sample="create_checkpoint normal return")
             elif any(e.kind == "wait_raised" for e in s.trace):
                 chk.prove(f"{prefix}.state.sync_blocks.error_propagates", s.pc, isinstance(v, Ref) and v == [e for e in s.trace if e.kind == "wait_raised"][0].exc and len(puts) == 1,
@@ -508,8 +525,12 @@ def completion_event_contract(chk, prefix="C03"):
                 st.ghost["is_set"] = T
                 return [("val", None, st)]
             if fn.name == "Event.wait":
-                st.emit("event_wait")
-                return [("val", True, st)]
+                t_ = args[0] if args else kwargs.get("timeout")
+                r_ = True if t_ is None or (isinstance(t_, Opt) and z3.is_true(simp(t_.none))) else fresh("bool", "event_wait_result")
+                if isinstance(t_, Opt) and not z3.is_true(simp(t_.none)):
+                    r_ = Sym("bool", z3.If(t_.none, T, fresh("bool", "event_wait_result").t))
+                st.emit("event_wait", timeout=t_, result=r_)
+                return [("val", r_, st)]
             return Hooks.opaque_call(self, eng, st, fn, args, kwargs)
     for stored_none in (True, False):
         eng = Engine(hooks=H())
@@ -539,10 +560,17 @@ def completion_event_contract(chk, prefix="C03"):
         err = mk_opt(z3.Bool("stored.none"), eng.new_symexc(st, "stored"))
         ce = st.alloc(cls, {"_event": st.alloc("opaque:Event", {}), "_error": err})
         st.ghost["owner"] = ce
-        for k, v, s in eng.run(cls.find_method("wait"), [ce], st=st):
+        tmo = mk_opt(z3.Bool("timeout.none"), fresh("real", "timeout"))
+        for k, v, s in eng.run(cls.find_method("wait"), [ce, tmo], st=st):
             chk.paths += 1
-            waited = any(e.kind == "event_wait" for e in s.trace)
-            goal = z3.And(z3.BoolVal(waited), z3.If(is_none(err), z3.BoolVal(k == "val"), z3.BoolVal(k == "raise" and v == strip_opt(err))))
-            chk.prove(f"{prefix}.event.contract.wait", s.pc, goal, desc="wait() blocks on the event, then raises the stored error if there is one and returns otherwise")
+            ws = [e for e in s.trace if e.kind == "event_wait"]
+            waited = len(ws) == 1
+            passed = waited and ws[0].timeout is tmo
+            ret_ok = T
+            if k == "val" and waited:
+                r_ = ws[0].result
+                ret_ok = z3.BoolVal(v is True) if r_ is True else (zbool(v) == r_.t if is_sym(v, "bool") else F)
+            goal = z3.And(z3.BoolVal(waited and passed), z3.If(is_none(err), z3.BoolVal(k == "val"), z3.BoolVal(k == "raise" and v == strip_opt(err))), ret_ok)
+            chk.prove(f"{prefix}.event.contract.wait", s.pc, goal, desc="wait(timeout) blocks on the event with the caller's timeout (None = until it is set), then raises the stored error if there is one and otherwise returns the event's answer (True iff it was set)")
         break_ = stored_none
     return None
